@@ -193,7 +193,20 @@ def judge_run(P, obs, flags, isbb, hang, crash):
     F = []; skip = set()
     who = 'bb' if isbb else 'ref'
     if hang:
-        F.append(Finding('oracle', 'bb:hang' if isbb else 'ref:hang', 'run did not terminate (watchdog)'))
+        key = 'bb:hang' if isbb else 'ref:hang'
+        stuck = []
+        for q in range(P.np):
+            for ln in range(1, len(P.lines) + 1):
+                t = P.lines[ln - 1].split()
+                if t and (t[0] == '*' or t[0] == str(q)) and len(obs.get((ln, q), [])) < 2:
+                    stuck.append(ln); break
+        if isbb and stuck and all(ln in P.waitmix_lines or P.lines[ln - 1].startswith('* barrier') for ln in stuck) \
+                and any(ln in P.waitmix_lines for ln in stuck):
+            key = G.KEY_WAITMIX
+        F.append(Finding('oracle', key, 'run did not terminate (watchdog); ranks stuck at lines %s: %s'
+                         % (stuck, [P.lines[ln - 1] for ln in stuck])))
+        if key == G.KEY_WAITMIX:
+            return F, {'hang'}
     if crash:
         F.append(Finding('oracle', 'bb:crash' if isbb else 'ref:crash', 'run crashed: ' + crash[-300:]))
     for ln in range(1, len(P.lines) + 1):
@@ -289,6 +302,8 @@ def judge(P, r, mobs):
     bbF, skip = judge_run(P, r.bb, flags, True, r.bb_rc == -9, None if r.bb_rc in (0, -9) else r.bb_out)
     deF, _ = judge_run(P, r.de, set(), False, r.de_rc == -9, None if r.de_rc in (0, -9) else r.de_out)
     F += bbF
+    if 'hang' in skip:
+        return F                     # nothing after a deadlock is comparable
     for f in deF:
         f.cls = 'reference'
     F += deF
